@@ -110,8 +110,7 @@ class _Explainer:
                                    f'(max deviation {float(np.max(np.abs(d - g))):.3g}, tol {float(np.max(tol_)):.3g})',
                                    segment=[a, b], got=d[:8], geometry=g[:8])
         dmax = np.max(d[1:-1])
-        scale = float(np.max(np.abs(np.asarray(pt, dtype=float) - np.asarray(pt[0], dtype=float)))) + float(np.hypot(*(np.asarray(pt[-1], float) - np.asarray(pt[0], float))))
-        tol = max(64 * EPS * scale, EPS)
+        tol = models.farthest_tol(pt, self.distname)
         cands = [r_ for r_ in inside if d[r_ - a] >= dmax - tol]
         if not cands:
             far = int(np.argmax(d[1:-1])) + 1 + a
